@@ -74,6 +74,6 @@ def check(ctx):
              'polynomials whose exact division stays within 16-bit numerators (Rat / exact f64 alternating); (iii) rational coefficients; (iv) zero/empty divisors and '
              'dividends; (v) general f64 / Complex<f64> coefficients with magnitudes 1e-3..1e3, the input of D7 included; '
              '(vi) special exact values: Complex divisors with leads of modulus 1 (i, -i, -1, 1, (3+4i)/5, (-4+3i)/5, (5+12i)/13), Gaussian-integer data (exact), monomial '
-             'divisors c*x^m for m = 0..deg u+3, constant divisors, 0 / 1 / -1 forced into the constant, an inner and the leading position of u and v; (vii) sequences on ONE object used as dividend and as divisor before and after every mutator (IndexMut, coeffs() assignment / push / pop, trim), judged against the current coefficients; (viii) single index writes that flip the zero-ness of one object used as divisor and dividend (zero -> non-zero lead -> coefficients zeroed one at a time -> all zero: Err, never panic / Ok -> non-zero again; empty -> push), is_zero() observed around every write; Rat, f64 and Complex<f64>. One event per call; distinct = distinct '
+             'divisors c*x^m for m = 0..deg u+3, constant divisors, 0 / 1 / -1 forced into the constant, an inner and the leading position of u and v; (vii) sequences on ONE object used as dividend and as divisor before and after every mutator (IndexMut, coeffs() assignment / push / pop, trim), judged against the current coefficients; (viii) single index writes that flip the zero-ness of one object used as divisor and dividend (zero -> non-zero lead -> coefficients zeroed one at a time -> all zero: Err, never panic / Ok -> non-zero again; empty -> push), is_zero() observed around every write; Rat, f64 and Complex<f64>; (ix) refused calls (polydiv by the empty / zero polynomial, a vanishing leading coefficient that makes the exact type panic inside polydiv, index out of range) immediately followed on the same thread by ordinary divisions, twice. One event per call; distinct = distinct '
              '(operands, outcome) / (degrees, outcome, units).',
         trusted=['harness residual measurement in double-double (harness/src/suites/polydiv.rs, dd.rs)', 'TLC', 'PolyDiv.tla / Poly.tla'])
